@@ -106,6 +106,18 @@ func evictScripts() []Seq {
 	// the next cache update then treats usage as over the limit (found by the thorough tier)
 	add("allkeys-lfu", 120, e("set", "k6", "xxxxxxxxxxxxxxxxxxxx"), e("set", "k1", "xxxxxxxxxxxxxxxxxxxx", "px", "100"), e("set", "k5", "5", "px", "100"),
 		e("del", "k6", "k1"), e("touch", "k5"))
+	// long access histories: recorded counts far beyond a byte (a busy key must stay ahead of a less busy one)
+	for _, pol := range []string{"allkeys-lfu", "volatile-lfu"} {
+		ops := []Op{e("set", "k1", "aa", "ex", "900"), e("set", "k2", "bb", "ex", "900"), e("set", "k3", "cc", "ex", "900")}
+		for i := 0; i < 262; i++ {
+			ops = append(ops, e("get", "k3"))
+		}
+		for i := 0; i < 258; i++ {
+			ops = append(ops, e("get", "k2"))
+		}
+		ops = append(ops, e("objectfreq", "k3"), e("objectfreq", "k2"), e("set", "k4", "dd", "ex", "900"), e("set", "k5", "ee", "ex", "900"), e("set", "k6", "ff", "ex", "900"))
+		add(pol, 240, ops...)
+	}
 	return out
 }
 
